@@ -45,6 +45,7 @@ pub fn op_kind(op: &Op) -> &'static str {
         Op::HostileReply { .. } => "hostile_reply",
         Op::HostileExec { .. } => "hostile_exec",
         Op::Donate { .. } => "donate",
+        Op::ExtraFunds { .. } => "extra_funds",
     }
 }
 
@@ -241,7 +242,15 @@ impl Engine {
                     let id = c[*pkt as usize % c.len()];
                     if let Some(r) = self.w.relay_timeout(id, id % 2 == 1) {
                         self.stats.fault("F3_timeout");
-                        self.after_tx(r);
+                        let r = self.after_tx(r);
+                        if let (true, Some(e)) = (r.ok, r.attr("ibc-timeout-callback-error")) {
+                            // ibc-hooks drops a timeout callback that errors: the refund has happened and the
+                            // contract will never hear of it (from here on it is a lost callback, F6)
+                            let e = e.to_string();
+                            self.m.lost_cb.insert(id);
+                            self.stats.probe("timeout_callback_errored_and_was_dropped");
+                            self.vo("C07", "timeout_callback_accepted", format!("the timeout callback of tracked transfer {} (sequence {}) was answered with an error ({}); ibc-hooks does not deliver a failed timeout callback again, so the transfer stays recorded as in flight although its funds were refunded, and no non-admin can recover them", id, self.w.st.packets[id].seq, e));
+                        }
                     }
                 }
             }
@@ -282,6 +291,7 @@ impl Engine {
             Op::HostileReply { id_sel, ok, data } => self.op_hostile_reply(*id_sel, *ok, *data),
             Op::HostileExec { who, kind } => self.op_hostile_exec(*who, *kind),
             Op::Donate { user, kind, amount } => self.op_donate(*user, *kind, *amount),
+            Op::ExtraFunds { user, unstake, amount, extra_kind, extra } => self.op_extra_funds(*user, *unstake, *amount, *extra_kind, *extra),
         }
         self.note_panics();
         let ok = self.last_tx.as_ref().map(|t| t.ok).unwrap_or(true);
@@ -645,6 +655,50 @@ impl Engine {
         if stored != expect {
             let (p, c) = if prop == "C17" { ("C05", "requests_match_history") } else { (prop, clause) };
             self.v(p, c, format!("stored open requests of {} are {:?} but its unstakes and withdrawals amount to {:?}", user, stored, expect));
+        }
+    }
+
+    fn op_extra_funds(&mut self, user: u8, unstake: bool, amount: u128, extra_kind: u8, extra: u128) {
+        let sender = self.user_addr(user);
+        let ibc = self.ibc();
+        let lst = self.lst.clone();
+        let (main, other) = if unstake { (lst.clone(), ibc.clone()) } else { (ibc.clone(), lst.clone()) };
+        let extra_denom = if extra_kind % 2 == 0 { other } else { "uosmo".to_string() };
+        // fund the sender: staked asset and unrelated tokens from the faucet, LST only from its holdings
+        let mut need = |e: &mut Engine, d: &str, a: u128| -> u128 {
+            if d == e.lst {
+                a.min(e.w.st.bank.balance(&sender, d))
+            } else if d == ibc {
+                e.w.faucet(&sender, a);
+                a
+            } else {
+                e.w.st.bank.mint(&sender, d, a);
+                a
+            }
+        };
+        let a_main = need(self, &main, amount.max(1));
+        let a_extra = need(self, &extra_denom, extra.max(1));
+        if a_main == 0 || a_extra == 0 {
+            return;
+        }
+        // the SDK keeps the coins of a message sorted by denom
+        let mut funds = vec![(main.clone(), a_main), (extra_denom.clone(), a_extra)];
+        funds.sort();
+        let msg = if unstake { json!({"liquid_unstake": {}}) } else { json!({"liquid_stake": {}}) };
+        self.stats.probe("message_with_a_second_coin");
+        let res = self.exec(&sender, &funds, &msg, if unstake { Origin::Other } else { Origin::Stake });
+        if !res.ok {
+            return;
+        }
+        let what = if unstake { "LiquidUnstake" } else { "LiquidStake" };
+        let m = format!("{} accepted funds {:?}: {} {} stay in the contract without belonging to any batch, fee, refund or request", what, funds, a_extra, extra_denom);
+        if extra_denom == lst {
+            self.v("C03", "contract_holds_only_queued_lst", m);
+        } else if extra_denom == ibc {
+            self.v("C02", "contract_holds_only_what_it_owes", m);
+        } else {
+            // an unrelated coin swallowed by the contract is outside every property; the run cannot be followed
+            self.v("SETASIDE", "second_coin_accepted", m);
         }
     }
 
